@@ -37,6 +37,10 @@ fn main() {
         }),
         "c05" => Box::new(fvh::c05::C05::new(args.p_u64("max_size", 3000) as usize)),
         "c09" => Box::new(fvh::c09::C09 {}),
+        "c06" => Box::new(fvh::c06::C06 {}),
+        "c08" => Box::new(fvh::c08::C08 {
+            mode: args.p_str("mode", "range"),
+        }),
         "c07" => Box::new(fvh::c07::C07 {
             all_formats: args.p_bool("all"),
         }),
